@@ -9,6 +9,7 @@ import (
 	"net/http"
 	"net/http/httptest"
 	"net/url"
+	"os"
 	"strconv"
 	"strings"
 	"sync"
@@ -195,6 +196,9 @@ func c03Announce(c *Case, done *bool, pvOn bool) {
 
 func c03Exec(c *Case) {
 	announced := false
+	if p := os.Getenv("C03_TRACE"); p != "" { // debugging aid: the case being run survives a process death
+		_ = os.WriteFile(p, []byte(strings.Join(c.Lines, "\n")+"\n"), 0o644)
+	}
 	for _, l := range c.Lines {
 		f := strings.Fields(l)
 		switch {
